@@ -146,45 +146,22 @@ def rule_glue(rep: Report, rid="C02.glue") -> None:
                    expected="if token.eof(): return False", found="guard present" if w["eof_guard"] else "no EOF guard")
         rep.ob(rid, f"TokenMatcher defines match_{k}", tm.find_method(f"match_{k}") is not None,
                file="python/gherkin/token_matcher.py", function=tm.qualname, expected="method", found="missing" if tm.find_method(f"match_{k}") is None else "method")
-    # forwarders
-    for name, target, dflt in (("build", "build", True), ("start_rule", "start_rule", True), ("end_rule", "end_rule", True)):
-        fi = _fn(rep, name)
-        b = body_wo_doc(fi.node)
-        params = fi.params()
-        found = unparse(b[0]) if b else ""
-        ok = False
-        if len(b) == 1 and isinstance(b[0], (ast.Expr, ast.Return)) and b[0].value is not None:
-            c = b[0].value
-            if isinstance(c, ast.Call) and is_self_attr(c.func) and c.func.attr in ("handle_ast_error", "handle_external_error"):
-                args = c.args
-                if c.func.attr == "handle_ast_error" and len(args) == 3:
-                    ctx, arg, act = args
-                    ok = True
-                elif c.func.attr == "handle_external_error" and len(args) == 4:
-                    ctx, _d, arg, act = args
-                    ok = True
-                if ok:
-                    ok = (isinstance(ctx, ast.Name) and ctx.id == params[1] and isinstance(arg, ast.Name)
-                          and arg.id == params[2] and dotted(act) == f"self.ast_builder.{target}")
-        rep.ob(rid, f"Parser.{name} forwards its argument to ast_builder.{target} through the error wrapper", ok,
-               file=PARSER_FILE, line=fi.node.lineno, function=fi.qualname,
-               expected=f"self.handle_ast_error(context, <arg>, self.ast_builder.{target})", found=found)
-    fi = _fn(rep, "handle_ast_error")
-    b = body_wo_doc(fi.node)
-    ok = False
-    if len(b) == 1 and isinstance(b[0], (ast.Expr, ast.Return)) and isinstance(b[0].value, ast.Call):
-        c = b[0].value
-        p = fi.params()
-        ok = is_self_attr(c.func, "handle_external_error") and len(c.args) == 4 and \
-            [unparse(a) for a in (c.args[0], c.args[2], c.args[3])] == [p[1], p[2], p[3]]
-    rep.ob(rid, "Parser.handle_ast_error delegates (context, argument, action) to handle_external_error", ok,
-           file=PARSER_FILE, line=fi.node.lineno, function=fi.qualname,
-           expected="self.handle_external_error(context, <default>, argument, action)", found=unparse(b[0]) if b else "")
+    # forwarders (normal form: the argument reaches the builder method of the same name through the error wrapper)
+    from ..frame import analyse_forwarder
+    for name, target in (("build", "build"), ("start_rule", "start_rule"), ("end_rule", "end_rule")):
+        a = analyse_forwarder(name, target)
+        rep.used_function(a["fi"].qualname)
+        rep.ob(rid, f"Parser.{name} forwards its argument to ast_builder.{target} through the error wrapper", a["ok"],
+               file=PARSER_FILE, line=a["fi"].node.lineno, function=a["fi"].qualname,
+               expected=f"self.handle_ast_error(context, <arg>, self.ast_builder.{target})", found=a["found"])
     fi = _fn(rep, "get_result")
-    b = body_wo_doc(fi.node)
-    ok = len(b) == 1 and isinstance(b[0], ast.Return) and call_name(b[0].value) == "self.ast_builder.get_result"
+    from ..absint import new_interp as _ni, fmt as _fmt
+    I_ = _ni()
+    I_.intrinsics["gherkin.ast_builder.AstBuilder.get_result"] = lambda I2, st, fi2, args, kw, n, tree: ("builder_result", args[0])
+    t_, rv_, s_ = I_.run(fi.qualname)
+    ok = rv_ == ("builder_result", ("attr", ("param", fi.params()[0]), "ast_builder"))
     rep.ob(rid, "Parser.get_result returns ast_builder.get_result()", ok, file=PARSER_FILE, line=fi.node.lineno,
-           function=fi.qualname, expected="return self.ast_builder.get_result()", found=unparse(b[0]) if b else "")
+           function=fi.qualname, expected="return self.ast_builder.get_result()", found=_fmt(rv_, I_))
     # dispatch
     rule_dispatch(rep, rid)
     rule_parse_frame(rep, rid)
